@@ -339,8 +339,13 @@ def oracle(case, io):
         # "the windows jointly cover the REGION": with adjust='region' the grid of centres may reach beyond the region (a centre interval of
         # round-off width still gets two nodes one spacing apart), so a point on the region's own border can sit on the seam between two windows
         lo_e, hi_e, lo_n, hi_n = max(lo_e, box[0]), min(hi_e, box[1]), max(lo_n, box[2]), min(hi_n, box[3])
+        # when the step EQUALS the size (within round-off) neighbouring windows only share an edge: a point within round-off of that seam can
+        # fall in the crack between the two float edges (neither the model nor the property decides it); with a real overlap there is no seam
+        def on_seam(v, line, step):
+            return step > size - 2 * tol and any(abs(abs(v - c) - half) <= tol for c in line)
         for k in range(len(es)):
-            if lo_e + tol < es[k] < hi_e - tol and lo_n + tol < ns[k] < hi_n - tol and k not in covered:
+            if lo_e + tol < es[k] < hi_e - tol and lo_n + tol < ns[k] < hi_n - tol and k not in covered \
+                    and not on_seam(es[k], east, stepe) and not on_seam(ns[k], north, stepn):
                 return f"windows overlap (step <= size) but point {k} = ({es[k]}, {ns[k]}) of the covered region is in no window"
     return None
 
